@@ -254,7 +254,9 @@ func (w *world) apply(k opKind) {
 		w.fs.files[live] = []byte{}
 		w.pending = ""
 		w.send(fsnotify.Write, live)
-		a := w.line()
+		// (the first line written after the truncation begins with NUL bytes - what a hole left by copytruncate
+		// would look like, except that here they ARE the line's first bytes)
+		a := "\x00\x00" + w.line()
 		w.fs.files[live] = append(w.fs.files[live], []byte(a+"\n")...)
 		w.want = append(w.want, a)
 		w.send(fsnotify.Write, live)
